@@ -22,6 +22,7 @@ Three kinds of cases (all lines are str ending in one "\\n"; bytes runs encode t
       are the only cases whose scripts have more than ~20 commands (24 .. 4100 edits).
 """
 import itertools
+import re
 
 from hypothesis import strategies as st
 
@@ -122,7 +123,7 @@ def build_script(case, plan=None):
     old, new = case["old"], case["new"]
     differ = case.get("differ", "lcs")
     if plan is not None and (differ == "plan" or (differ == "lcs" and len(old) * len(new) > LCS_CELLS)):
-        return ed.emit_plan(old, new, plan, int(case.get("style", 0)) & 7), ["differ:plan"]
+        return ed.emit_plan(old, new, plan, int(case.get("style", 0)) & 15), ["differ:plan"]
     if differ == "diff-e":
         script = ed.diff_e(old, new)
         if script is None:
@@ -130,7 +131,7 @@ def build_script(case, plan=None):
         return script, ["differ:diff-e"]
     if differ not in ("lcs", "difflib"):
         differ = "lcs"
-    return ed.make_script(old, new, differ, int(case.get("style", 0)) & 7), ["differ:" + differ]
+    return ed.make_script(old, new, differ, int(case.get("style", 0)) & 15), ["differ:" + differ]
 
 
 def as_form(lines, form):
@@ -352,6 +353,18 @@ def check_corrupt(case):
     ebad = [enc(l) for l in bad]
     unterminated = cls.startswith("unterminated")
     sig = "unterminated-block-accepted" if unterminated else "malformed-accepted:" + cls
+    # The documented `re_cmd` parameter lets a caller bring a pattern of their own.  What such a
+    # call accepted earlier in this process (here: a deliberately tolerant pattern that takes
+    # almost any line as "1d") must not change what the default pattern accepts afterwards.
+    if ebad and isinstance(ebad[0], bytes):
+        lax = re.compile(rb"^\D*(\d*)(?:,\s*(\d*))?\s*([acd]?).*$", re.S)
+    else:
+        lax = re.compile(r"^\D*(\d*)(?:,\s*(\d*))?\s*([acd]?).*$", re.S)
+    try:
+        for _ in patches_from_ed_script(list(ebad), re_cmd=lax):
+            pass
+    except (ValueError, TypeError, IndexError):
+        pass          # whatever the caller's pattern leads to is the caller's business
     try:
         got = list(patches_from_ed_script(as_form(ebad, form)))
     except ValueError:
@@ -418,7 +431,7 @@ def gen_old_new(draw):
 def gen_pair(draw, differs=("lcs", "lcs", "difflib")):
     old, new = draw(gen_old_new())
     return {"kind": "pair", "old": old, "new": new, "differ": draw(st.sampled_from(differs)),
-            "style": draw(st.integers(0, 7)), "bytes": draw(st.booleans()),
+            "style": draw(st.integers(0, 15)), "bytes": draw(st.booleans()),
             "form": draw(st.sampled_from(FORMS))}
 
 
@@ -447,7 +460,7 @@ def gen_big(draw):
             "ops": draw(st.lists(st.integers(0, 6), min_size=1, max_size=6)),
             "end": draw(st.booleans()),
             "differ": draw(st.sampled_from(["lcs", "difflib", "plan", "diff-e"])),
-            "style": draw(st.integers(0, 7)), "bytes": draw(st.booleans()),
+            "style": draw(st.integers(0, 15)), "bytes": draw(st.booleans()),
             "form": draw(st.sampled_from(FORMS))}
 
 
@@ -486,7 +499,7 @@ def enum_pairs(maxlen):
         for old in seqs:
             for new in seqs:
                 for differ in ("lcs", "difflib"):
-                    for style in range(8):
+                    for style in list(range(8)) + [8, 9, 11, 12]:
                         for b in (False, True):
                             k += 1
                             yield {"kind": "pair", "old": old, "new": new, "differ": differ,
